@@ -142,12 +142,16 @@ class TapeWriter:
         fn = cell["fn"]
         if fn == "add_files":
             yield {"data0": [1, 2, 3], "data1": [4] * 300, "data2": [], "B0": []}
+            yield {"data0": [0] * 10, "data1": [0x12] * 255 + [0] * 10, "data2": [0] * 510, "B0": []}
             return
         for L in lens:
             data = [(7 * i + 3) % 256 for i in range(L)]
             if fn == "append_data_blocks":
                 yield {"raw": data, "B0": []}
                 yield {"raw": [0x55, 0x3C, 0xFF] * (L // 3), "B0": [1, 2, 3]}
+                # contents whose VALUES could be mistaken for "nothing left": all zero, and zero from a block boundary onwards
+                yield {"raw": [0] * L, "B0": []}
+                yield {"raw": [0x12] * min(L, 255) + [0] * max(0, L - 255), "B0": [9]}
             elif fn in ("add_file", "append_header"):
                 n = cell.get("n", 3)
                 for b0 in ([], [0x00, 0x55, 0x3C, 0xFF, 0x00, 0xFF, 0x55]):        # on an empty buffer and behind an earlier file's EOF block
@@ -155,6 +159,8 @@ class TapeWriter:
                     for k in range(n):
                         h["nm%d" % k] = 65 + k
                     yield h
+                h = dict(h, data=[0] * L, B0=[])
+                yield h
 
     # ---- helpers
     def _fresh_cassette(self, env, F, native):
